@@ -44,6 +44,9 @@ pub enum RemHow {
     Exact,
     WrongSize,
     Absent,
+    /// guest address and size of a current region, another front-end address (the statement leaves the outcome
+    /// open; whichever it is, table and translation must agree with it)
+    WrongUser,
 }
 
 #[derive(Serialize, Deserialize, Debug, Clone, Hash, PartialEq, Eq)]
@@ -54,6 +57,9 @@ pub enum MemOp {
     /// SET_MEM_TABLE with the geometry of the table in force (same guest and front-end ranges, same order) but other
     /// backing files / offsets: what a front end sends after it re-allocated its memory, or after a reconnect
     Resend { file_rot: u8 },
+    /// SET_MEM_TABLE describing `regs` (>= 2 regions) but carrying only `nfds` (1 <= nfds < regions) descriptors: not a
+    /// valid message; it must be refused and leave the table in force intact
+    SetShort { regs: Vec<Reg>, nfds: u8 },
 }
 
 #[derive(Serialize, Deserialize, Debug, Clone, Hash, PartialEq, Eq)]
@@ -151,6 +157,7 @@ fn run_generic<V: VringT<GM> + Clone + Send + Sync + 'static>(ctx: &mut Ctx, h: 
         let desc = format!("op #{i} {op:?}");
         let impossible = |r: &R| r.unmappable != 0;
         let fd_of = |r: &R| if r.unmappable == 1 { pipe_fd.as_raw_fd() } else { files[r.file].as_raw_fd() };
+        let mut just_removed = false;
         let (accepted, must): (bool, Option<bool>) = match op {
             MemOp::Set(regs) => {
                 let rs: Vec<R> = regs.iter().map(|r| r.resolve(&h.files)).collect();
@@ -173,6 +180,22 @@ fn run_generic<V: VringT<GM> + Clone + Send + Sync + 'static>(ctx: &mut Ctx, h: 
                     table = rs;
                 }
                 (ok, must)
+            }
+            MemOp::SetShort { regs, nfds } => {
+                let rs: Vec<R> = regs.iter().map(|r| R { unmappable: 0, ..r.resolve(&h.files) }).collect();
+                if rs.len() < 2 {
+                    continue;
+                }
+                let n = 1 + (*nfds as usize) % (rs.len() - 1);
+                let body = spec::b_mem_table(&rs.iter().map(|r| [r.gpa, r.size, r.ua, r.off]).collect::<Vec<_>>());
+                let fds: Vec<i32> = rs.iter().take(n).map(|r| fd_of(r)).collect();
+                let ok = s.acked(fe::SET_MEM_TABLE, &body, &fds)?;
+                ctx.class("table_with_fewer_descriptors_than_regions");
+                if ok {
+                    removed.extend(table.iter().copied());
+                    table = rs;
+                }
+                (ok, Some(false))
             }
             MemOp::Resend { file_rot } => {
                 let mut sorted_table = table.clone();
@@ -225,6 +248,7 @@ fn run_generic<V: VringT<GM> + Clone + Send + Sync + 'static>(ctx: &mut Ctx, h: 
                     let t = table[crate::engine::idx(*i, table.len())];
                     match how {
                         RemHow::WrongSize => R { size: t.size + PAGE, ..t },
+                        RemHow::WrongUser => R { ua: t.ua ^ 0x10_0000, ..t },
                         _ => t,
                     }
                 };
@@ -233,9 +257,15 @@ fn run_generic<V: VringT<GM> + Clone + Send + Sync + 'static>(ctx: &mut Ctx, h: 
                 if ok {
                     if let Some(p) = exists {
                         removed.push(table.remove(p));
+                        just_removed = true;
                     }
                 }
-                (ok, Some(exists.is_some()))
+                if *how == RemHow::WrongUser && exists.is_some() {
+                    ctx.class(if ok { "remove_with_other_user_address_accepted" } else { "remove_with_other_user_address_refused" });
+                    (ok, None)
+                } else {
+                    (ok, Some(exists.is_some()))
+                }
             }
         };
         ctx.class(if accepted { "op_accepted" } else { "op_refused" });
@@ -333,7 +363,8 @@ fn run_generic<V: VringT<GM> + Clone + Send + Sync + 'static>(ctx: &mut Ctx, h: 
             }
             // two probes per step, rotating
             for j in 0..2 {
-                let va = probes[(i * 2 + j) % probes.len()];
+                // right after a removal the removed range is probed first
+                let va = if just_removed && j == 0 { *probes.last().unwrap() } else { probes[(i * 2 + j) % probes.len()] };
                 let owners: Vec<&R> = table.iter().filter(|t| va >= t.ua && (va as u128) < t.ua as u128 + t.size as u128).collect();
                 if owners.len() > 1 {
                     ctx.class("probe_ambiguous_user_ranges_overlap");
@@ -373,7 +404,7 @@ fn run_generic<V: VringT<GM> + Clone + Send + Sync + 'static>(ctx: &mut Ctx, h: 
         }
     }
     if nt {
-        let key: Vec<String> = h.ops.iter().map(|o| match o { MemOp::Set(r) => format!("S{}", r.len()), MemOp::Add(_) => "A".into(), MemOp::Rem { how, .. } => format!("R{how:?}"), MemOp::Resend { .. } => "Z".into() }).collect();
+        let key: Vec<String> = h.ops.iter().map(|o| match o { MemOp::Set(r) => format!("S{}", r.len()), MemOp::Add(_) => "A".into(), MemOp::Rem { how, .. } => format!("R{how:?}"), MemOp::Resend { .. } => "Z".into(), MemOp::SetShort { regs, nfds } => format!("T{}/{}", nfds, regs.len()) }).collect();
         ctx.nontrivial(&(h.rwlock, key, &h.ops));
         ctx.class("nontrivial");
     }
@@ -432,13 +463,14 @@ fn op_strategy() -> impl Strategy<Value = MemOp> {
         2 => good_table().prop_map(MemOp::Set),
         1 => proptest::collection::vec(reg_strategy(), 1..=8).prop_map(MemOp::Set),
         4 => reg_strategy().prop_map(MemOp::Add),
-        3 => (any::<u16>(), prop_oneof![3 => Just(RemHow::Exact), 1 => Just(RemHow::WrongSize), 1 => Just(RemHow::Absent)]).prop_map(|(i, how)| MemOp::Rem { i, how }),
+        3 => (any::<u16>(), prop_oneof![3 => Just(RemHow::Exact), 1 => Just(RemHow::WrongSize), 1 => Just(RemHow::Absent), 1 => Just(RemHow::WrongUser)]).prop_map(|(i, how)| MemOp::Rem { i, how }),
+        1 => (good_table(), any::<u8>()).prop_map(|(regs, nfds)| MemOp::SetShort { regs, nfds }),
         2 => any::<u8>().prop_map(|file_rot| MemOp::Resend { file_rot }),
     ]
 }
 
 pub fn run(ctx: &mut Ctx) {
-    ctx.rule = "histories (1..12 steps) of SET_MEM_TABLE(1..8 regions) / ADD_MEM_REG / REM_MEM_REG(exact, size-mismatched, absent) with \
+    ctx.rule = "histories (1..12 steps) of SET_MEM_TABLE(1..8 regions) / ADD_MEM_REG / REM_MEM_REG(exact, size-mismatched, absent, other front-end address), SET_MEM_TABLE with fewer descriptors than regions, with \
                 generated geometry: guest pages from a small space (adjacent, overlapping, duplicate, unordered), 1..64 pages, non-zero \
                 mmap offsets, unmappable descriptors / unaligned offsets (failing mmap), user ranges near 0 / around 2^63 / ending at 2^64-1; executed on a real \
                 daemon (both vring kinds) by a raw client, reconnecting after every refused request. Non-trivial = a refused operation after \
